@@ -32,6 +32,13 @@ Proof. exact py_expand_bfs_spec_all. Qed.
 Theorem C04_source_expand_dfs : forall (fuel : nat) (N : net) (cfg : config) (d : sd) (start stack_limit size_limit : option nat), py_expand_dfs fuel N cfg d start stack_limit size_limit = expand_dfs fuel N cfg d start stack_limit size_limit.
 Proof. exact py_expand_dfs_spec_all. Qed.
 
+(* the public methods SuccessionDiagram.expand_bfs / expand_dfs (generated from the source: they pass their parameters on in order) *)
+Theorem C04_source_public_expand_bfs : forall (fuel : nat) (N : net) (cfg : config) (d : sd) (start level_limit size_limit : option nat), py_api_expand_bfs fuel N cfg d start level_limit size_limit = expand_bfs fuel N cfg d start level_limit size_limit.
+Proof. exact py_api_expand_bfs_spec. Qed.
+
+Theorem C04_source_public_expand_dfs : forall (fuel : nat) (N : net) (cfg : config) (d : sd) (start stack_limit size_limit : option nat), py_api_expand_dfs fuel N cfg d start stack_limit size_limit = expand_dfs fuel N cfg d start stack_limit size_limit.
+Proof. exact py_api_expand_dfs_spec. Qed.
+
 Theorem C04_run_invariants : forall (fuel : nat) (N : net) (cfg : config) (h : list op) (d : sd) (r : result), 1 <= max_motifs cfg -> Forall plain h -> In (d, r) (run fuel N cfg (init N) h) -> SWF N d /\ TrapNodes N d /\ EdgeStrict d /\ NoStubEdges d /\ Rooted d /\ Faithful N d.
 Proof. exact run_invariants. Qed.
 
@@ -85,6 +92,8 @@ Print Assumptions C04_source_node_successors.
 Print Assumptions C04_source_expand_one_node.
 Print Assumptions C04_source_expand_bfs.
 Print Assumptions C04_source_expand_dfs.
+Print Assumptions C04_source_public_expand_bfs.
+Print Assumptions C04_source_public_expand_dfs.
 Print Assumptions C04_run_invariants.
 Print Assumptions C04_step_Faithful_all.
 Print Assumptions C04_step_NoStubEdges.
